@@ -10,6 +10,11 @@ def generate(seed, tier):
         lines.append("race inproc %d %d %d # spec=C09 eq delivered-all" % (nl, ms, g.rint(1, 10**6)))
         g.count("stress_runs")
     lines.append("race exitflag %d # spec=C09 eq ok" % (20 if tier == "quick" else 200))
+    # a real two-listener service started through the wiring of main.go, dialog bookkeeping on both listeners at once
+    import os, time
+    base = 25000 + ((os.getpid() * 29 + int(time.time())) % 900)
+    lines.append("race service %d %d # spec=C09 eq ok" % (base, 500 if tier == "quick" else 3000))
+    g.count("real_service_runs")
     # the three separately locked steps of a dispatch racing with membership changes at full speed
     for _ in range(2 if tier == "quick" else 10):
         lines.append("rr race %d %d # spec=C09 eq ok" % (500 if tier == "quick" else 3000, g.rint(1, 10**6)))
